@@ -127,9 +127,13 @@ def _build(fn, name, params, body, clsname):
     code = compile(mod, f"<slice of {getattr(fn, '__qualname__', fn)}>", "exec")
     ns = dict(fn.__globals__)
     exec(code, ns)
-    if clsname:
-        return ns[clsname].__dict__[name]
-    return ns[name]
+    f = ns[clsname].__dict__[name] if clsname else ns[name]
+    # re-bind the code object to the LIVE globals of the original module (so shims bound
+    # there during verification are seen, exactly as the original function would see them)
+    import types
+    g = types.FunctionType(f.__code__, fn.__globals__, f.__name__, f.__defaults__, f.__closure__)
+    g.__kwdefaults__ = f.__kwdefaults__
+    return g
 
 
 def _clsname(fn):
@@ -197,3 +201,15 @@ def epilogue_slice(fn, loop_index=0):
     f = _build(fn, "_slice_epilogue", params, body, _clsname(fn))
     f.slice_info = dict(kind="epilogue", loop=loop_index, params=params)
     return f
+
+
+def loop_index_of(fn, loop_type="While", ordinal=0):
+    """Index (for step_slice/prologue_slice) of the ordinal-th loop of the given type."""
+    fd = _source_tree(fn)
+    k = -1
+    for i, l in enumerate(_loops(fd)):
+        if type(l).__name__ == loop_type:
+            k += 1
+            if k == ordinal:
+                return i
+    raise Missing(f"{fn.__qualname__}: no {loop_type} loop #{ordinal}")
